@@ -185,6 +185,35 @@ func c11Rules(c *Ctx) {
 		}
 		esc, path2 := r2.From(s.After()).Escape(pop)
 		c.Check(!esc, "C11.marker", fn, "insert-pops", mu, "each activated index entry is popped", "an activated index entry is not popped: it is re-activated after its abort marker", path2)
+		// head consumption: the loop that pops the head must examine the head — indexing the shrinking
+		// slice with an advancing index skips every other entry
+		if inner != nil {
+			okHead := true
+			var badAt ssa.Instruction
+			for b := range inner.Blocks {
+				for _, in := range b.Instrs {
+					ia, isIA := in.(*ssa.IndexAddr)
+					if !isIA || !isSliceOfPtrToNamed(ia.X.Type(), "AbortedTransaction") {
+						continue
+					}
+					ph, isPhi := ia.X.(*ssa.Phi)
+					if !isPhi || ph.Block() != inner.Head {
+						continue // a snapshot taken before the loop (range), fine
+					}
+					// is this phi the popped variable?
+					popped := false
+					for _, e := range ph.Edges {
+						if sl, isS := e.(*ssa.Slice); isS && sl.Low != nil && ConstInt(1)(sl.Low) {
+							popped = true
+						}
+					}
+					if popped && !ConstInt(0)(ia.Index) {
+						okHead, badAt = false, ia
+					}
+				}
+			}
+			c.Check(okHead, "C11.marker", fn, "pop-examines-head", badAt, "the loop that pops the index examines the snapshot/head consistently", "the aborted-transaction index is indexed with an advancing index while its head is popped in the same loop: every other eligible entry is skipped and that producer's aborted records are delivered", nil)
+		}
 	}
 
 	// C11.sorted
